@@ -2,6 +2,7 @@ import LexVerif.Props.RoundNE
 import LexVerif.Proof.WriteRadixInt
 import LexVerif.Proof.WriteBinaryShape
 import LexVerif.Proof.WriteRadixFrac
+import LexVerif.Proof.WriteRadixIntText
 import Mathlib.Tactic.SplitIfs
 /-!
 # C07 — generic-radix float output
@@ -309,6 +310,38 @@ theorem radix_integer_exact_full (cf : Bool) {f : Fmt} (hf : StdFmt f) {r : Nat}
   refine ⟨generate_integral cf hf.fok hf.fuel.2.2 hr hr36 (hf.radix_lt hr36) h0 hn, ?_⟩
   have h64 : 2 * 2 ^ (f.p - 1) ≤ 2 ^ 64 := by rcases hf with rfl | rfl <;> decide
   exact (radix_integer_exact (modelOps f) r _ n (ieeeExact_modelOps hf.fok) hr (hf.radix_lt hr36) h0 hn h64).1
+
+/-- **the full model on an integral float equals the integer-path model, text level**: for the float of an integer
+`0 < n < 2^p`, default `max_significant_digits`, any other options / format flags / feature set, the whole writer
+returns exactly the bytes `render (layoutInt …)` of the integer-path model (run on the modelled arithmetic), or PANICs
+iff the caller's slice is shorter than the highest index `hi` it touches. With `radix_integer_exact*` this carries the
+positional / scientific exactness statements over to the full model. -/
+theorem radix_integer_text_full (cf : Bool) {f : Fmt} (hf : StdFmt f) (feats : Features) (fmt : Format)
+    (hr : 2 ≤ fmt.mantissaRadix) (hr36 : fmt.mantissaRadix ≤ 36) (o : WOpts) (ho : o.maxDigits = none)
+    {n : Nat} (h0 : 0 < n) (hn : n < 2 * 2 ^ (f.p - 1)) (len : Nat) :
+    ∃ hi, WriteRadix.writeFloat cf feats f fmt o (ofNat f n) len =
+      if hi > len then .panic
+      else .ok (WriteBinary.render (WriteFloat.effFmt feats fmt) feats o
+        (layoutInt (WriteFloat.effFmt feats fmt) o (modelOps f) n)) := by
+  have hmr : (WriteFloat.effFmt feats fmt).mantissaRadix = fmt.mantissaRadix := effFmt_byteAt feats fmt (by decide)
+  obtain ⟨hgen, hdig⟩ := radix_integer_exact_full cf hf hr hr36 h0 hn
+  obtain ⟨d0, t, hdt, hd0⟩ := LexVerif.Proof.WriteBinaryDigits.toDigits_head_pos fmt.mantissaRadix n hr h0
+  have h64 : 2 * 2 ^ (f.p - 1) ≤ 2 ^ 64 := by rcases hf with rfl | rfl <;> decide
+  have hlen : (toDigits fmt.mantissaRadix n).length ≤ 64 := by
+    apply toDigits_length_le _ _ 64 hr (by decide)
+    calc n < 2 ^ 64 := by omega
+      _ ≤ fmt.mantissaRadix ^ 64 := Nat.pow_le_pow_left hr 64
+  rw [hdt] at hlen hdig
+  obtain ⟨hi, hl⟩ := LexVerif.Proof.WriteRadixIntText.layoutText_int (WriteFloat.effFmt feats fmt) feats o ho
+    (modelOps f) n d0 t (by rw [hmr]; exact hdig) hd0 (by simp only [List.length_cons] at hlen; omega)
+  refine ⟨hi, ?_⟩
+  unfold WriteRadix.writeFloat
+  rw [hgen, hdt]
+  simp only [Res.bind]
+  rw [hmr] at hl
+  have hl' : layoutText (WriteFloat.effFmt feats fmt) feats o fmt.mantissaRadix
+      ⟨List.map digitChar (d0 :: t), [], []⟩ = _ := hl
+  rw [hl']
 
 /-- non-vacuity: `2^53 - 1` and `2^24 - 1` are such integers -/
 example : generate true f64 36 (ofNat f64 (2 ^ 53 - 1)) = .ok ⟨(toDigits 36 (2 ^ 53 - 1)).map digitChar, [], []⟩ :=
